@@ -450,16 +450,18 @@ pub fn run_c15(ctx: &mut Ctx) {
             let mut ops = gen_sat_history(&mut rng, len);
             if rng.pct(8) {
                 // variable ids spread over several 64-blocks, several variables sharing a residue modulo 64
+                // (half of these: ids that are exact multiples of 64, the last bit of a word)
+                let exact = rng.pct(50);
                 let f = |l: isize| -> isize {
                     let v = l.unsigned_abs() as isize;
-                    let nv = 1 + (v % 3) + 64 * (v / 3);
+                    let nv = if exact { if v % 2 == 0 { 64 * (v / 2 + 1) } else { 64 * (v / 2) + 1 } } else { 1 + (v % 3) + 64 * (v / 3) };
                     if l > 0 { nv } else { -nv }
                 };
                 for op in ops.iter_mut() {
                     match op {
                         SOp::Add(c) => c.iter_mut().for_each(|l| *l = f(*l)),
                         SOp::Solve(a) => a.iter_mut().for_each(|l| *l = f(*l)),
-                        SOp::Reserve(n) => *n = 1 + (*n % 3) + 64 * (*n / 3),
+                        SOp::Reserve(n) => *n = if exact { 64 * (*n / 2 + 1) } else { 1 + (*n % 3) + 64 * (*n / 3) },
                     }
                 }
                 ctx.count("histories/variable-ids-spread-over-64-blocks");
@@ -1437,6 +1439,41 @@ pub fn run_c17(ctx: &mut Ctx) {
             ctx.case_begin(&json!({"i": i}));
         }
         let mut rng = Rng::from_path(&[ctx.seed, 17, i]);
+        if i % 97 == 5 {
+            // a connected component of 64-72 arguments that has stable extensions (an even ring with a few
+            // pendant arguments): fast paths that only exist above a size threshold, failure at each of
+            // the few calls of a range query
+            let len = *rng.pick(&[64usize, 66, 70]);
+            let mut att: Vec<(usize, usize)> = (0..len).map(|k| (k, (k + 1) % len)).collect();
+            let mut n = len;
+            for _ in 0..rng.range(0, 2) {
+                att.push((n, rng.below(len)));
+                n += 1;
+            }
+            let g = crate::refsem::Abs::new(n, att);
+            let text = {
+                let mut t = format!("p af {}\n", n);
+                for (a, b) in g.att.iter() {
+                    t.push_str(&format!("{} {}\n", a + 1, b + 1));
+                }
+                t
+            };
+            let case = crate::cases::StaticCase { family: "big-ring".to_string(), abs: g, pres: crate::present::Pres::Iccma { text } };
+            ctx.count("cases/component-of-64-or-more-arguments-with-stable-extensions");
+            for _ in 0..2 {
+                let a = rng.below(n);
+                for prob in ["DC-SST", "DS-SST", "DC-STG", "DS-STG", "DS-PR"] {
+                    let enc = if prob.ends_with("STG") { *rng.pick(&["aux_var-cf", "exp-cf"]) } else { *rng.pick(&["aux_var-co", "exp-co", "hybrid"]) };
+                    let focus = json!({"problem": prob, "encoder": enc, "query": {"args": [a], "cert": rng.pct(50)}});
+                    crate::report::guarded(ctx, |ctx| {
+                        if let Ok(b) = build_usize(&case.pres) {
+                            c17_static(ctx, &case, &b, &mut rng, Some(&focus));
+                        }
+                    });
+                }
+            }
+            continue;
+        }
         // "long-search": shapes on which the second-level procedures need many calls (fault positions deep
         // inside a search, beyond any warm-up a look-ahead or a cache may have)
         let fam = *rng.pick(&["er", "lattice", "union", "all3", "long-search"]);
